@@ -1,0 +1,181 @@
+// Copyright 2026 The Go Authors. All rights reserved.
+// Use of this source code is governed by a BSD-style
+// license that can be found in the LICENSE file.
+
+//go:build verif && (!goexperiment.jsonv2 || !go1.25)
+
+package jsontext
+
+import (
+	"bytes"
+	"fmt"
+	"io"
+	"sync/atomic"
+)
+
+// VerifHooks is the instrumentation surface for external runtime monitors.
+// It only exists under the "verif" build tag.
+type VerifHooks struct {
+	// Counters (always maintained).
+	Fetches, FetchGrows, FetchCompactions   atomic.Int64 // decoderState.fetch
+	Flushes, FlushPartial                   atomic.Int64 // encoderState.Flush reached the writer / writer accepted less than offered
+	FlushLenBucket                          [9]atomic.Int64 // len(Buf)*8/cap(Buf) at flush
+	UnwriteMember, UnwriteName              atomic.Int64 // UnwriteEmptyObjectMember / UnwriteOnlyObjectMemberName returned having retracted
+	UnwriteAfterFlush                       atomic.Int64 // ... while baseOffset > 0 (bytes of the stream already flushed)
+	PoolGets, PoolPuts, PoolPoisonedBytes   atomic.Int64
+	InvariantFailures                       atomic.Int64
+
+	// Poison makes put* overwrite every buffer the pooled coder retains with 0xA5,
+	// so that anything still aliasing a recycled buffer is visibly corrupted.
+	Poison atomic.Bool
+
+	// Report, if set, receives invariant failures (kind is a stable identifier).
+	Report atomic.Pointer[func(kind, msg string)]
+	// OnFetch, if set, is called after fetch has compacted/grown the buffer and
+	// before it reads: the buffer must hold stream bytes [baseOffset, baseOffset+len(buf)).
+	OnFetch atomic.Pointer[func(rd io.Reader, baseOffset int64, buf []byte, prevStart, prevEnd int)]
+}
+
+// Verif is the process-wide hook state.
+var Verif VerifHooks
+
+func (h *VerifHooks) fail(kind, format string, a ...any) {
+	h.InvariantFailures.Add(1)
+	if f := h.Report.Load(); f != nil {
+		(*f)(kind, fmt.Sprintf(format, a...))
+	}
+}
+
+func verifFetch(d *decoderState, grew bool) {
+	Verif.Fetches.Add(1)
+	if grew {
+		Verif.FetchGrows.Add(1)
+	} else {
+		Verif.FetchCompactions.Add(1)
+	}
+	if !(0 <= d.prevStart && d.prevStart <= d.prevEnd && d.prevEnd <= len(d.buf) && len(d.buf) <= cap(d.buf)) {
+		Verif.fail("decode-buffer-invariant", "0 <= prevStart(%d) <= prevEnd(%d) <= len(%d) <= cap(%d) violated", d.prevStart, d.prevEnd, len(d.buf), cap(d.buf))
+	}
+	if d.baseOffset < 0 {
+		Verif.fail("decode-base-offset", "baseOffset %d < 0", d.baseOffset)
+	}
+	if f := Verif.OnFetch.Load(); f != nil {
+		(*f)(d.rd, d.baseOffset, d.buf, d.prevStart, d.prevEnd)
+	}
+}
+
+func verifFlush(e *encoderState, n int) {
+	Verif.Flushes.Add(1)
+	if n < len(e.Buf) {
+		Verif.FlushPartial.Add(1)
+	}
+	if c := cap(e.Buf); c > 0 {
+		Verif.FlushLenBucket[min(8, len(e.Buf)*8/c)].Add(1)
+	}
+}
+
+func verifUnwrite(e *encoderState, kind int) {
+	if kind == 0 {
+		Verif.UnwriteMember.Add(1)
+	} else {
+		Verif.UnwriteName.Add(1)
+	}
+	if e.baseOffset > 0 {
+		Verif.UnwriteAfterFlush.Add(1)
+	}
+}
+
+func verifCheckFreshState(what string, s *state) {
+	if len(s.Tokens.Stack) != 0 || s.Tokens.Last != stateTypeArray {
+		Verif.fail("pool-dirty-"+what, "token stack not reset: depth %d", s.Tokens.Depth())
+	}
+	if s.Names.length() != 0 {
+		Verif.fail("pool-dirty-"+what, "name stack not reset: %d names", s.Names.length())
+	}
+	if len(s.Namespaces) != 0 {
+		Verif.fail("pool-dirty-"+what, "namespace stack not reset: %d", len(s.Namespaces))
+	}
+}
+
+func verifGetEncoder(e *Encoder) {
+	Verif.PoolGets.Add(1)
+	verifCheckFreshState("encoder", &e.s.state)
+	if e.s.baseOffset != 0 || len(e.s.Buf) != 0 {
+		Verif.fail("pool-dirty-encoder", "baseOffset=%d len(Buf)=%d after reset", e.s.baseOffset, len(e.s.Buf))
+	}
+	if len(e.s.SeenPointers) != 0 {
+		Verif.fail("pool-dirty-encoder", "%d seen pointers left over", len(e.s.SeenPointers))
+	}
+}
+
+func verifPoison(b []byte) {
+	b = b[:cap(b)]
+	for i := range b {
+		b[i] = 0xA5
+	}
+	Verif.PoolPoisonedBytes.Add(int64(len(b)))
+}
+
+func verifPutEncoder(e *Encoder) {
+	Verif.PoolPuts.Add(1)
+	if !Verif.Poison.Load() {
+		return
+	}
+	if _, ok := e.s.wr.(*bytes.Buffer); !ok {
+		verifPoison(e.s.Buf) // owned by the encoder
+	}
+	verifPoison(e.s.availBuffer)
+}
+
+func verifGetDecoder(d *Decoder) {
+	Verif.PoolGets.Add(1)
+	verifCheckFreshState("decoder", &d.s.state)
+	if d.s.peekPos != 0 || d.s.peekErr != nil || d.s.prevStart != 0 || d.s.prevEnd != 0 || d.s.baseOffset != 0 {
+		Verif.fail("pool-dirty-decoder", "peekPos=%d peekErr=%v prevStart=%d prevEnd=%d baseOffset=%d after reset",
+			d.s.peekPos, d.s.peekErr, d.s.prevStart, d.s.prevEnd, d.s.baseOffset)
+	}
+}
+
+func verifPutDecoder(d *Decoder) {
+	Verif.PoolPuts.Add(1)
+	if !Verif.Poison.Load() {
+		return
+	}
+	if d.s.rd != nil {
+		if _, ok := d.s.rd.(*bytes.Buffer); !ok {
+			verifPoison(d.s.buf) // owned by the streaming decoder
+		}
+	}
+}
+
+// VerifCheckEncoder walks the parallel stacks of e and reports broken invariants.
+func VerifCheckEncoder(e *Encoder) (problems []string) { return verifCheckStacks(&e.s.state) }
+
+// VerifCheckDecoder walks the parallel stacks of d and reports broken invariants.
+func VerifCheckDecoder(d *Decoder) (problems []string) { return verifCheckStacks(&d.s.state) }
+
+func verifCheckStacks(s *state) (problems []string) {
+	objects := 0
+	for i := 1; i < s.Tokens.Depth(); i++ {
+		if s.Tokens.index(i).isObject() {
+			objects++
+		}
+	}
+	if n := s.Names.length(); n != objects {
+		problems = append(problems, fmt.Sprintf("name stack has %d entries for %d open objects", n, objects))
+	}
+	if n := len(s.Namespaces); n > objects {
+		problems = append(problems, fmt.Sprintf("namespace stack has %d entries for %d open objects", n, objects))
+	}
+	// non-negative offsets (copied names) precede negative ones (names still in the buffer)
+	seenNeg := false
+	for _, off := range s.Names.offsets {
+		if off < 0 {
+			seenNeg = true
+		} else if seenNeg {
+			problems = append(problems, "name stack: copied name after an uncopied one")
+			break
+		}
+	}
+	return problems
+}
